@@ -26,7 +26,7 @@ THEOREMS = [
     "C11_try_from_eq_parse",
     "C11_try_from_inner_eq_de",
     "C11_display_is_ser",
-    "C11_display_brace_refuted",
+    "C11_display_brace_literal",
     "C11_display_datetime_refuted",
     "C11_untagged_order",
     "C11_untagged_first_wins",
@@ -88,7 +88,7 @@ def ref(n):
 
 
 def curated_cases():
-    """[(name, case, expect)]; expect: 'ok' | 'brace' (finding C11-F1 region)."""
+    """[(name, case, expect)]; expect: 'ok' (every curated module must generate and compile)."""
     out = []
     out.append(("enums", D(
         Plain=E("a", "b", "c"),
@@ -153,21 +153,22 @@ def curated_cases():
     out.append(("datetime", D(
         Dt=S(format="date-time"), RefDt=ref("Dt"), UnDt={"oneOf": [S(format="date-time"), S(format="date")]},
     ), "ok"))
-    # finding region C11-F1: raw names used as format strings
+    # regression cases of the FIXED finding C11-F1 (/repo a0ebad5): raw names with braces, formerly
+    # used unescaped as format strings
     for k, v in enumerate(["{{", "}}", "a{{b}}c", "{{}}", "{", "}", "{}", "a{b}", "{f}", "{0}", "{:?}", "{self}",
                            "100%{", "a}b"]):
-        out.append(("brace%d" % k, D(Brace=E(v, "ok")), "brace"))
+        out.append(("brace%d" % k, D(Brace=E(v, "ok")), "ok"))
     return out
 
 
 def random_cases(ctx, n):
-    """Seeded stream confined to the clean region: no braces in enum values, no
-    date-time under Display (finding C11-F2), values with pairwise distinct
-    identifiers (else typify rejects the schema)."""
+    """Seeded stream confined to the clean region: no date-time under Display
+    (finding C11-F2); values whose identifiers collide make typify reject the
+    schema (skipped).  Braces are in the stream since the fix a0ebad5."""
     rnd = random.Random(ctx.seed * 7919 + 11)
     words = ["a", "b", "c", "ab", "abc", "x", "y", "red", "green", "blue", "Red", "GREEN", "dark-red", "light_blue",
              "1", "2nd", "a b", "é", "日本", "type", "self", "résumé", "a.b", "A/B", "q?", "it's",
-             "\"q\"", "back\\slash", "%", "#1", "ß", "İ", "ǅ"]
+             "\"q\"", "back\\slash", "%", "#1", "ß", "İ", "ǅ", "{z", "}}w", "a{b}", "{0}", "100%{}"]
     fmts = ["uuid", "date", "ip", "ipv4", "ipv6"]
     out = []
     for k in range(n):
@@ -397,7 +398,8 @@ def run(ctx):
         "section variables native_parse/native_display/native_ser (tabulated from the compiled uuid/chrono/std::net "
         "implementations); assumption A1: FromStr and Deserialize-from-string of a native type accept the same strings "
         "and yield equal values - validated on every probe string for the six string-format natives",
-        "rustc's format-string grammar as modelled by fmt_render ({{ and }} escapes; any other brace is not a literal)",
+        "rustc's format-string grammar as modelled by fmt_render ({{ and }} escapes; any other brace is not a literal), "
+        "applied to the escaped literal (fmt_escape = the two str::replace calls of the fix a0ebad5)",
     ]
     ctx.assumptions = [
         "domain = string_wired (simple externally tagged enums, String newtypes with/without constraints or deny "
@@ -405,8 +407,8 @@ def run(ctx):
         "alternatives, Box of those)",
         "theorem hypothesis wf_conv (bespoke impl lists sound w.r.t. present has_impl) is evaluated = true on every "
         "explored type",
-        "C11_display_is_ser excludes raw names containing braces (finding C11-F1) and natives whose Display differs "
-        "from Serialize (chrono DateTime<Utc>, finding C11-F2); both exclusions have refutation witnesses",
+        "C11_display_is_ser excludes natives whose Display differs from Serialize (chrono DateTime<Utc>, finding "
+        "C11-F2, with a refutation witness); raw names containing braces are covered since fix a0ebad5 (C11-F1 fixed)",
     ]
     ctx.checker_cmd = ("make -f Makefile.coq theories/Props/C11.vo && coqc Audit_C11.v (Print Assumptions); "
                        "python py/props/c11.py correspondence + direct evaluation on compiled code")
@@ -431,18 +433,17 @@ def run(ctx):
     brace_compile = []
     for i, (name, case, expect, _x) in enumerate(specs):
         st = w.status[i]
-        if expect == "ok" and st != "ok":
+        if st != "ok":
             if name.startswith("rand") and st == "not-generated":
                 continue   # identifier collision / empty enum: schema rejected, nothing generated
             unexpected.append({"case": name, "status": st, "errors": w.compile_errors.get(i),
                                "steps": w.gen[i].get("steps")})
-        if expect == "brace" and st == "compile-error":
+        if st == "compile-error" and any(has_brace(v["raw"]) for e in w.gen[i]["dump"]["entries"].values()
+                                         if e["kind"] == "enum" for v in e["variants"]):
             brace_compile.append((i, name))
-        if expect == "brace" and st == "not-generated":
-            unexpected.append({"case": name, "status": st, "steps": w.gen[i].get("steps")})
     if w.chunk_failures:
         unexpected.append({"chunk_failures": {str(k): v[:2] for k, v in w.chunk_failures.items()}})
-    ctx.oblige("world: every curated module is generated and compiles (brace modules excepted)", not unexpected,
+    ctx.oblige("world: every curated module is generated and compiles", not unexpected,
                json.dumps(unexpected[:4])[:3000])
 
     # ---------------- probes and tables
@@ -690,24 +691,14 @@ def run(ctx):
                         n_cmp += 1
                         dist["display"] += 1
                         if m["display"] != r["ok"] or m["de"] != r.get("ser"):
-                            if not (m["display"] is None and has_brace(json.dumps(e))):
-                                mism.append({"case": name, "type": tname, "s": s, "op": "display", "impl": r,
-                                             "model": [m["display"], m["de"]]})
-                            elif m["display"] is None and r["ok"] == r.get("ser"):
-                                mism.append({"case": name, "type": tname, "s": s, "op": "display", "impl": r,
-                                             "model": "non-literal format string but compiled Display = ser"})
-            # brace modules: model must predict a non-literal format string when rustc rejects the Display impl
+                            mism.append({"case": name, "type": tname, "s": s, "op": "display", "impl": r,
+                                         "model": [m["display"], m["de"]]})
+        # the model says every Display literal is valid: a module with brace raw names that rustc
+        # rejects contradicts it
         for i, name in brace_compile:
-            g = w.gen[i]
-            pred = False
-            for e in g["dump"]["entries"].values():
-                if e["kind"] == "enum":
-                    for v in e["variants"]:
-                        if fmt_render_py(v["raw"]) is None:
-                            pred = True
             n_cmp += 1
-            if not pred:
-                mism.append({"case": name, "what": "compile error not predicted by fmt_render", "errors": w.compile_errors.get(i)})
+            mism.append({"case": name, "what": "module with brace raw names does not compile; model: escaped literal "
+                         "is a valid format string", "errors": w.compile_errors.get(i)})
     ctx.oblige("correspondence K5/K4: StrConv model = compiled generated code on %d comparisons" % n_cmp,
                model_ok and not mism, json.dumps(mism[:6], ensure_ascii=True)[:4000])
     ctx.coverage["correspondence_comparisons"] = n_cmp
@@ -719,7 +710,7 @@ def run(ctx):
                                "not_generated": sum(1 for s in w.status if s == "not-generated")}
     ctx.coverage["rule"] = ("curated world (simple enums incl. odd-cased/keyword/quote/unicode values, nullable enums, "
                             "String newtypes with length/pattern constraints, deny lists, six native formats, wrappers, "
-                            "untagged enums in both orders, brace raw names) + seeded random modules; probes = generic "
+                            "untagged enums in both orders, raw names with braces incl. {self}) + seeded random modules; probes = generic "
                             "+ native + per-type members/idents/case variants/boundary lengths (ascii, 2-byte, 4-byte)")
 
     # ---------------- the property itself on the compiled code (no model)
@@ -785,6 +776,9 @@ def run(ctx):
                     shown = di["ok"]
                     if MUT == "impl_display_ident" and e["kind"] == "enum":
                         shown = dbg_head(A(i, tid, s, "dbg_de")) or shown
+                    if MUT == "impl_display_unescape" and e["kind"] == "enum" and e["tag"]["k"] == "external" and isinstance(di.get("ser"), str):
+                        rr = fmt_render_py(di["ser"])     # what the pre-a0ebad5 template printed
+                        shown = rr if rr is not None else "<does not compile>"
                     if shown != di.get("ser"):
                         found.append({"kind": "display-vs-serialize", "case": name, "type": tname, "s": s,
                                       "to_string": shown, "ser": di.get("ser"),
@@ -799,10 +793,10 @@ def run(ctx):
         for e in g["dump"]["entries"].values():
             if e["kind"] == "enum" and any(v["raw"] == "{self}" for v in e["variants"]):
                 crashed = False
-                try:
+                try:   # isolated process: before a0ebad5 this recursed until the stack overflowed
                     r = w.query([{"m": i, "t": e["name"], "op": "display", "input": json.dumps("{self}")}], timeout=120)
-                    crashed = not (r and "ok" in r[0] and r[0]["ok"] == "{self}")
-                except Exception:  # noqa  (process died: stack overflow)
+                    crashed = not (r and "ok" in r[0] and r[0]["ok"] == "{self}" and r[0].get("ser") == "{self}")
+                except Exception:  # noqa  (process died)
                     crashed = True
                 n_direct += 1
                 if crashed:
